@@ -114,6 +114,25 @@ def gen_blocks_request(ch, cfg, ancestor=None):
 def run_one(ch, cfg):
     w = World(ch)
     w.bring_up()
+    # history: one manager lifetime serves 1..3 requests (advance and ancestor updates mixed); each is
+    # judged on its own
+    nreq = [1, 1, 2, 3][ch.draw(4, "requests-in-lifetime")]
+    out = None
+    viol = []
+    for _ in range(nreq):
+        res = _one_request(w, ch, cfg)
+        viol.extend(res["violations"])
+        if out is None:
+            out = res
+    out["violations"] = viol
+    out["digest"] = w.log.digest()
+    out["sim_s"] = w.clock.elapsed
+    out["probes"] = dict(w.device.probes)
+    out["probes"]["requests_%d" % nreq] = 1
+    return out
+
+
+def _one_request(w, ch, cfg):
     dev = w.device
     req, exp, info = gen_blocks_request(ch, cfg)
     ancestor, nblocks, nfset = info["ancestor"], info["nblocks"], info["nfset"]
@@ -123,6 +142,7 @@ def run_one(ch, cfg):
     n_before = len(dev.apdus)
     rep, exc = w.request(req)
     viol = list(dev.violations)
+    del dev.violations[:]
     if exc is not None:
         viol.append(("reply/exception", "%s: %s" % (type(exc).__name__, exc)))
     result = exp.get("result")
